@@ -56,7 +56,7 @@ mod detail {
         definitions::N_BINOPS_OF_DEEPEX_ON_STACK,
         operators::{BinOpWithIdx, UnaryFuncWithIdx, UnaryOp, VecOfUnaryFuncs},
         parser::{self, Paren, ParsedToken},
-        DeepEx, ExError, ExResult, MakeOperators, MatchLiteral,
+        DeepEx, ExError, ExResult, MakeOperators, MatchLiteral, Operator,
     };
 
     use super::{BinOpVec, BinOpsWithReprs, DeepNode, UnaryOpWithReprs};
@@ -121,6 +121,7 @@ mod detail {
         nodes: &[DeepNode<T, OF, LM>],
         bin_ops: &BinOpsWithReprs<T>,
         unary_op: &UnaryOpWithReprs<T>,
+        ops: &[Operator<T>],
     ) -> String
     where
         T: DataType,
@@ -133,9 +134,12 @@ mod detail {
             DeepNode::Var((_, var_name)) => format!("{{{var_name}}}"),
             DeepNode::Expr(e) => {
                 if e.unary_op().op.len() == 0 {
-                    format!("({})", unparse_raw(e.nodes(), e.bin_ops(), e.unary_op()))
+                    format!(
+                        "({})",
+                        unparse_raw(e.nodes(), e.bin_ops(), e.unary_op(), ops)
+                    )
                 } else {
-                    unparse_raw(e.nodes(), e.bin_ops(), e.unary_op())
+                    unparse_raw(e.nodes(), e.bin_ops(), e.unary_op(), ops)
                 }
             }
         });
@@ -145,6 +149,17 @@ mod detail {
         let node_with_bin_ops_string = node_strings.fold(first_node_str, |mut res, node_str| {
             let bin_op_str = bin_op_strings.next().unwrap();
             res.push_str(bin_op_str);
+            // a separating space is needed if the operator together with the beginning of the
+            // next node would be read as a longer operator, e.g., `&` followed by unary `&` as `&&`
+            let is_longer_op = |op: &Operator<T>| {
+                let n_bytes = op.repr().len();
+                n_bytes > bin_op_str.len()
+                    && op.repr().starts_with(bin_op_str)
+                    && node_str.starts_with(&op.repr()[bin_op_str.len()..])
+            };
+            if ops.iter().any(is_longer_op) {
+                res.push(' ');
+            }
             res.push_str(node_str.as_str());
             res
         });
@@ -698,7 +713,8 @@ where
                 self.unary_op.reprs.clear();
             }
         }
-        self.text = detail::unparse_raw(self.nodes(), self.bin_ops(), self.unary_op());
+        self.text =
+            detail::unparse_raw(self.nodes(), self.bin_ops(), self.unary_op(), &self.ops);
     }
 
     pub(super) fn new(
@@ -762,7 +778,8 @@ where
                 dummy_literal_matcher_factory: PhantomData,
             };
             expr.compile();
-            expr.text = detail::unparse_raw(expr.nodes(), expr.bin_ops(), expr.unary_op());
+            expr.text =
+                detail::unparse_raw(expr.nodes(), expr.bin_ops(), expr.unary_op(), &expr.ops);
             Ok(expr)
         }
     }
